@@ -51,6 +51,11 @@ def queries(tier):
     for L in ([0, 1] if tier == 'quick' else [0, 1, 2]):
         qs.append(dict(name='split_len%d' % L, unit='split64', harness='h_split.c', defs={'LEN': L}, unwind=L + 3, timeout=1500, mem_gb=10,
                        tv_runs=300, desc='split_args on %d symbolic bytes vs reference shell-style tokenizer' % L, bounds='input length %d, all byte values but NUL' % L))
+    if tier == 'thorough':
+        # length 3 with a concrete first byte (one cell per character class of the tokenizer; 'a' stands for an ordinary character)
+        for f, nm in ((34, 'dq'), (39, 'sq'), (92, 'bs'), (32, 'sp'), (9, 'tab'), (97, 'a')):
+            qs.append(dict(name='split_len3_first_%s' % nm, unit='split64', harness='h_split.c', defs={'LEN': 3, 'FIRST': f}, unwind=6, timeout=1500, mem_gb=10,
+                           tv_runs=200, desc='split_args on 3 bytes, first byte = %r, the other two symbolic, vs reference tokenizer' % chr(f), bounds='length 3, first byte %r' % chr(f)))
     # cheap concrete cells for the empty quoted argument ('' and ""): everything folds, sub-second; the symbolic LEN=2 query
     # above (thorough tier, minutes) is the real check, these keep the defect visible in the quick tier
     for q, nm in ((39, 'single'), (34, 'double')):
@@ -81,7 +86,7 @@ def queries(tier):
             qs.append(dict(name='classify_%s_q%d_%d_%d' % (cname, qk, qi, kl), unit='cls', harness='h_classify.c', defs=dd, unwind=7, timeout=600, mem_gb=3.5, flags=FAST,
                            tv_runs=60, desc='classification of %d tokens (kind,length) %s; query kind %d index %d key length %d' % (nt, toks_, qk, qi, kl), bounds='token kinds/lengths %s' % (toks_,)))
     # typed getters: (token kind, length) x op x (pos | key length)
-    POS_OPS, NAMED_OPS = (0, 1, 6, 8, 10), (2, 3, 4, 5, 7, 9, 11, 12, 13)
+    POS_OPS, NAMED_OPS = (0, 1, 6, 8, 10), (2, 3, 4, 7, 9, 11, 12, 13)   # op 5 (get_multi<string>): no verdict in 900 s; covered on concrete names by h_unused.c
     gcells = []
     for op in POS_OPS:
         for tk in ([S2] if tier == 'quick' else [S0, S2, P3]):
@@ -91,7 +96,7 @@ def queries(tier):
         for tk in (([S2, LO3] if op in (2, 7, 11) else [S2]) if tier == 'quick' else [S2, LO1, LO2, LO3]):
             for kl in ([1] if tier == 'quick' else [0, 1, 2]):
                 gcells.append((tk, op, 0, kl))
-    for op in (5, 12):
+    for op in (12,):
         gcells.append((F2S, op, 0, 1)); gcells.append((F2, op, 0, 1))
     for (k, l), op, pos, kl in gcells:
         qs.append(dict(name='get_%d%d_op%d_p%d_k%d' % (k, l, op, pos, kl), unit='cls', harness='h_get.c', defs={'K0': k, 'L0': l, 'OP': op, 'POS': pos, 'KLEN': kl},
